@@ -664,6 +664,24 @@ impl RoomAuthorisations {
                                         base64_encode(room_id),
                                     ));
                                 }
+                                //removing a reference signed by somebody else requires the all-rows right:
+                                //every peer asks it for the deletion record (validate_edge_deletions)
+                                if entity_to_mutate
+                                    .edge_deletions
+                                    .iter()
+                                    .any(|e| !e.verifying_key.eq(verifying_key))
+                                    && !room.can(
+                                        verifying_key,
+                                        &to_insert.entity,
+                                        to_insert.date,
+                                        &RightType::MutateAll,
+                                    )
+                                {
+                                    return Err(Error::AuthorisationRejected(
+                                        to_insert.entity.clone(),
+                                        base64_encode(room_id),
+                                    ));
+                                }
                                 for edge_deletion in &entity_to_mutate.edge_deletions {
                                     let log = EdgeDeletionEntry::build(
                                         room.id,
